@@ -438,7 +438,35 @@ func (t *fnTrans) lockOp(m Val, acquire bool, key string, pos token.Pos) {
 		e.vars["self"] = bound{Val{T: self}, types.NewPointer(p.Typ)}
 		return e
 	}
+	lockGhost := func(g QVar) (bound, bool) {
+		gty := t.eng.resolveType(g.Type, lockPkg)
+		if gty == nil {
+			t.errorf("lock %s.%s: ghostparam %s: unknown type %s", stName, ls.Field, g.Name, g.Type)
+			return bound{}, false
+		}
+		key := stName + "." + ls.Field + "." + g.Name
+		if t.lockGhosts == nil {
+			t.lockGhosts = map[string]bound{}
+		}
+		b, ok := t.lockGhosts[key]
+		if !ok {
+			n := "lg_" + sanitize(key)
+			t.declare(n, t.S.sortOf(gty))
+			t.cons = append(t.cons, constraint{0, false, t.wf(n, gty)})
+			b = bound{Val{T: n}, gty}
+			t.lockGhosts[key] = b
+			t.ghostParams = append(t.ghostParams, b)
+			if _, taken := t.params[g.Name]; !taken {
+				t.params[g.Name] = b.v
+				t.paramTy[g.Name] = gty
+			}
+		}
+		return b, true
+	}
 	if acquire {
+		for _, g := range ls.Ghosts {
+			lockGhost(g)
+		}
 		for _, sv := range guardedVars() {
 			nv := t.fresh(sv.Name+"_lk", t.S.sortOf(sv.Typ))
 			t.assume(t.wf(nv, sv.Typ))
@@ -448,6 +476,17 @@ func (t *fnTrans) lockOp(m Val, acquire bool, key string, pos token.Pos) {
 		env := mkEnv(t.cur, nil)
 		for _, c := range ls.Invariants {
 			t.assume(env.boolOf(c.Expr))
+		}
+		for _, c := range ls.Assumes {
+			t.assume(env.boolOf(c.Expr))
+			t.assumptions[fmt.Sprintf("lock %s.%s: assumed at acquisition, not checked: %s", stName, ls.Field, c.Src)] = true
+		}
+		if t.fc != nil {
+			le := t.entryEnv(t.cur)
+			for _, c := range t.fc.LockAssumes {
+				t.assume(le.boolOf(c.Expr))
+				t.assumptions["assumed after lock acquisition, not checked: "+c.Src] = true
+			}
 		}
 		for name := range t.vars {
 			t.cur.m["atlock:"+name] = t.get(t.cur, name)
@@ -460,6 +499,11 @@ func (t *fnTrans) lockOp(m Val, acquire bool, key string, pos token.Pos) {
 		snap.m[name] = t.get(t.cur, "atlock:"+name)
 	}
 	env := mkEnv(t.cur, snap)
+	for _, g := range ls.Ghosts {
+		if b, ok := lockGhost(g); ok {
+			env.vars[g.Name] = b
+		}
+	}
 	for i, c := range ls.Invariants {
 		nm := c.Name
 		if nm == "" {
@@ -516,6 +560,21 @@ func (t *fnTrans) resolveMod(item string, env *Env) []modTarget {
 		}
 		t.errorf("modifies %q: not a map type", item)
 		return []modTarget{{all: true}}
+	}
+	for _, pre := range []string{"elems(", "deref("} {
+		if strings.HasPrefix(item, pre) && strings.HasSuffix(item, ")") {
+			inner := strings.TrimSpace(item[len(pre) : len(item)-1])
+			_, isVar := env.vars[inner]
+			_, isPrm := env.prm[inner]
+			if !isVar && !isPrm {
+				if ty := t.eng.resolveType(inner, env.pkg); ty != nil {
+					if pre == "elems(" {
+						return []modTarget{{name: t.elemsVar(ty).Name}}
+					}
+					return []modTarget{{name: t.derefVar(ty).Name}}
+				}
+			}
+		}
 	}
 	x, err := parseSpec(item)
 	if err != nil {
@@ -605,6 +664,22 @@ func (t *fnTrans) resolveMod(item string, env *Env) []modTarget {
 	case *EUnary:
 		if x.Op == "*" {
 			v, ty := env.eval(x.X)
+			if v.P != nil {
+				// pointer to a location of the caller (e.g. &c.inFlightPQ): the target is that storage
+				p := v.P
+				switch {
+				case p.Cell != "":
+					return []modTarget{{name: p.Cell}}
+				case p.Global != "":
+					return []modTarget{{name: p.Global}}
+				case p.ArrOf != "":
+					return []modTarget{{name: p.ArrOf, ref: p.Ref}}
+				case len(p.Sels) > 0 && p.Sels[0].Index == "":
+					if _, ok := p.Typ.Underlying().(*types.Struct); ok {
+						return []modTarget{{name: t.fieldVar(p.Typ, p.Sels[0].Field).Name, ref: p.Ref}}
+					}
+				}
+			}
 			if pt, ok := ty.Underlying().(*types.Pointer); ok {
 				if _, ok := pt.Elem().Underlying().(*types.Struct); ok && !t.S.opaqueStruct(pt.Elem()) {
 					return structFields(pt.Elem(), v.T)
